@@ -181,6 +181,11 @@ func genRT(tier string) []proto.RTItem {
 			}
 		}
 	}
+	// a request the variant cannot serve (TCP SYN to an IPv6 target): whatever it answers, every handle it opened is closed once
+	for _, m := range []string{"syn", "sack", "prefer_sack"} {
+		r := proto.RTScn{Hostname: "2001:db8::77", Protocol: "tcp", Method: m, MinTTL: 1, MaxTTL: 4, DelayMs: 10, TimeoutMs: 100, Queries: 1, E2e: 1, Dest: 3, IPIDBase: 1000, EchoBase: 101, WantV6: true}
+		items = append(items, proto.RTItem{Scn: r, Class: fmt.Sprintf("request/tcp-%s/ipv6-target", m), Note: map[string]string{"may_fail": "1"}})
+	}
 	return items
 }
 
@@ -195,7 +200,7 @@ var RF = &proto.RTFamily{ID: "C10", Gen: genRT, Check: func(it *proto.RTItem, r 
 		if r.Err != nil && r.Res != nil {
 			out = append(out, proto.Issue{Key: "result-with-error", Detail: ""})
 		}
-	} else if r.Err != nil {
+	} else if r.Err != nil && it.Note["may_fail"] == "" {
 		out = append(out, proto.Issue{Key: "error-without-fault", Detail: r.Err.Error()})
 	}
 	if r.ThreadsLeft > 0 {
